@@ -15,6 +15,124 @@ Open Scope N_scope.
 Arguments N.mul : simpl never.
 Arguments N.add : simpl never.
 Arguments N.sub : simpl never.
+(* kernel conversion: unfold the handler being analysed before bind (otherwise checking 'unfold f in H' reduces
+   the whole body of the first bound call) *)
+Strategy 1000 [bind].
+
+(* projections through the record updates (each by computation); used to keep proof terms small *)
+Lemma r_id_upd_log : forall r v, r_id (upd_log r v) = r_id r. Proof. reflexivity. Qed.
+Lemma r_term_upd_log : forall r v, r_term (upd_log r v) = r_term r. Proof. reflexivity. Qed.
+Lemma r_vote_upd_log : forall r v, r_vote (upd_log r v) = r_vote r. Proof. reflexivity. Qed.
+Lemma r_lead_upd_log : forall r v, r_lead (upd_log r v) = r_lead r. Proof. reflexivity. Qed.
+Lemma r_msgs_upd_log : forall r v, r_msgs (upd_log r v) = r_msgs r. Proof. reflexivity. Qed.
+Lemma r_islearner_upd_log : forall r v, r_islearner (upd_log r v) = r_islearner r. Proof. reflexivity. Qed.
+Lemma r_state_upd_log : forall r v, r_state (upd_log r v) = r_state r. Proof. reflexivity. Qed.
+Lemma r_log_upd_log : forall r v, r_log (upd_log r v) = v. Proof. reflexivity. Qed.
+Lemma r_id_upd_prs : forall r v, r_id (upd_prs r v) = r_id r. Proof. reflexivity. Qed.
+Lemma r_term_upd_prs : forall r v, r_term (upd_prs r v) = r_term r. Proof. reflexivity. Qed.
+Lemma r_vote_upd_prs : forall r v, r_vote (upd_prs r v) = r_vote r. Proof. reflexivity. Qed.
+Lemma r_lead_upd_prs : forall r v, r_lead (upd_prs r v) = r_lead r. Proof. reflexivity. Qed.
+Lemma r_msgs_upd_prs : forall r v, r_msgs (upd_prs r v) = r_msgs r. Proof. reflexivity. Qed.
+Lemma r_islearner_upd_prs : forall r v, r_islearner (upd_prs r v) = r_islearner r. Proof. reflexivity. Qed.
+Lemma r_state_upd_prs : forall r v, r_state (upd_prs r v) = r_state r. Proof. reflexivity. Qed.
+Lemma r_log_upd_prs : forall r v, r_log (upd_prs r v) = r_log r. Proof. reflexivity. Qed.
+Lemma r_id_upd_lprs : forall r v, r_id (upd_lprs r v) = r_id r. Proof. reflexivity. Qed.
+Lemma r_term_upd_lprs : forall r v, r_term (upd_lprs r v) = r_term r. Proof. reflexivity. Qed.
+Lemma r_vote_upd_lprs : forall r v, r_vote (upd_lprs r v) = r_vote r. Proof. reflexivity. Qed.
+Lemma r_lead_upd_lprs : forall r v, r_lead (upd_lprs r v) = r_lead r. Proof. reflexivity. Qed.
+Lemma r_msgs_upd_lprs : forall r v, r_msgs (upd_lprs r v) = r_msgs r. Proof. reflexivity. Qed.
+Lemma r_islearner_upd_lprs : forall r v, r_islearner (upd_lprs r v) = r_islearner r. Proof. reflexivity. Qed.
+Lemma r_state_upd_lprs : forall r v, r_state (upd_lprs r v) = r_state r. Proof. reflexivity. Qed.
+Lemma r_log_upd_lprs : forall r v, r_log (upd_lprs r v) = r_log r. Proof. reflexivity. Qed.
+Lemma r_id_upd_msgs : forall r v, r_id (upd_msgs r v) = r_id r. Proof. reflexivity. Qed.
+Lemma r_term_upd_msgs : forall r v, r_term (upd_msgs r v) = r_term r. Proof. reflexivity. Qed.
+Lemma r_vote_upd_msgs : forall r v, r_vote (upd_msgs r v) = r_vote r. Proof. reflexivity. Qed.
+Lemma r_lead_upd_msgs : forall r v, r_lead (upd_msgs r v) = r_lead r. Proof. reflexivity. Qed.
+Lemma r_msgs_upd_msgs : forall r v, r_msgs (upd_msgs r v) = v. Proof. reflexivity. Qed.
+Lemma r_islearner_upd_msgs : forall r v, r_islearner (upd_msgs r v) = r_islearner r. Proof. reflexivity. Qed.
+Lemma r_state_upd_msgs : forall r v, r_state (upd_msgs r v) = r_state r. Proof. reflexivity. Qed.
+Lemma r_log_upd_msgs : forall r v, r_log (upd_msgs r v) = r_log r. Proof. reflexivity. Qed.
+Lemma r_id_upd_tv : forall r v w, r_id (upd_tv r v w) = r_id r. Proof. reflexivity. Qed.
+Lemma r_term_upd_tv : forall r v w, r_term (upd_tv r v w) = v. Proof. reflexivity. Qed.
+Lemma r_vote_upd_tv : forall r v w, r_vote (upd_tv r v w) = w. Proof. reflexivity. Qed.
+Lemma r_lead_upd_tv : forall r v w, r_lead (upd_tv r v w) = r_lead r. Proof. reflexivity. Qed.
+Lemma r_msgs_upd_tv : forall r v w, r_msgs (upd_tv r v w) = r_msgs r. Proof. reflexivity. Qed.
+Lemma r_islearner_upd_tv : forall r v w, r_islearner (upd_tv r v w) = r_islearner r. Proof. reflexivity. Qed.
+Lemma r_state_upd_tv : forall r v w, r_state (upd_tv r v w) = r_state r. Proof. reflexivity. Qed.
+Lemma r_log_upd_tv : forall r v w, r_log (upd_tv r v w) = r_log r. Proof. reflexivity. Qed.
+Lemma r_id_upd_state : forall r v, r_id (upd_state r v) = r_id r. Proof. reflexivity. Qed.
+Lemma r_term_upd_state : forall r v, r_term (upd_state r v) = r_term r. Proof. reflexivity. Qed.
+Lemma r_vote_upd_state : forall r v, r_vote (upd_state r v) = r_vote r. Proof. reflexivity. Qed.
+Lemma r_lead_upd_state : forall r v, r_lead (upd_state r v) = r_lead r. Proof. reflexivity. Qed.
+Lemma r_msgs_upd_state : forall r v, r_msgs (upd_state r v) = r_msgs r. Proof. reflexivity. Qed.
+Lemma r_islearner_upd_state : forall r v, r_islearner (upd_state r v) = r_islearner r. Proof. reflexivity. Qed.
+Lemma r_state_upd_state : forall r v, r_state (upd_state r v) = v. Proof. reflexivity. Qed.
+Lemma r_log_upd_state : forall r v, r_log (upd_state r v) = r_log r. Proof. reflexivity. Qed.
+Lemma r_id_upd_islearner : forall r v, r_id (upd_islearner r v) = r_id r. Proof. reflexivity. Qed.
+Lemma r_term_upd_islearner : forall r v, r_term (upd_islearner r v) = r_term r. Proof. reflexivity. Qed.
+Lemma r_vote_upd_islearner : forall r v, r_vote (upd_islearner r v) = r_vote r. Proof. reflexivity. Qed.
+Lemma r_lead_upd_islearner : forall r v, r_lead (upd_islearner r v) = r_lead r. Proof. reflexivity. Qed.
+Lemma r_msgs_upd_islearner : forall r v, r_msgs (upd_islearner r v) = r_msgs r. Proof. reflexivity. Qed.
+Lemma r_islearner_upd_islearner : forall r v, r_islearner (upd_islearner r v) = v. Proof. reflexivity. Qed.
+Lemma r_state_upd_islearner : forall r v, r_state (upd_islearner r v) = r_state r. Proof. reflexivity. Qed.
+Lemma r_log_upd_islearner : forall r v, r_log (upd_islearner r v) = r_log r. Proof. reflexivity. Qed.
+Lemma r_id_upd_votes : forall r v, r_id (upd_votes r v) = r_id r. Proof. reflexivity. Qed.
+Lemma r_term_upd_votes : forall r v, r_term (upd_votes r v) = r_term r. Proof. reflexivity. Qed.
+Lemma r_vote_upd_votes : forall r v, r_vote (upd_votes r v) = r_vote r. Proof. reflexivity. Qed.
+Lemma r_lead_upd_votes : forall r v, r_lead (upd_votes r v) = r_lead r. Proof. reflexivity. Qed.
+Lemma r_msgs_upd_votes : forall r v, r_msgs (upd_votes r v) = r_msgs r. Proof. reflexivity. Qed.
+Lemma r_islearner_upd_votes : forall r v, r_islearner (upd_votes r v) = r_islearner r. Proof. reflexivity. Qed.
+Lemma r_state_upd_votes : forall r v, r_state (upd_votes r v) = r_state r. Proof. reflexivity. Qed.
+Lemma r_log_upd_votes : forall r v, r_log (upd_votes r v) = r_log r. Proof. reflexivity. Qed.
+Lemma r_id_upd_lead : forall r v, r_id (upd_lead r v) = r_id r. Proof. reflexivity. Qed.
+Lemma r_term_upd_lead : forall r v, r_term (upd_lead r v) = r_term r. Proof. reflexivity. Qed.
+Lemma r_vote_upd_lead : forall r v, r_vote (upd_lead r v) = r_vote r. Proof. reflexivity. Qed.
+Lemma r_lead_upd_lead : forall r v, r_lead (upd_lead r v) = v. Proof. reflexivity. Qed.
+Lemma r_msgs_upd_lead : forall r v, r_msgs (upd_lead r v) = r_msgs r. Proof. reflexivity. Qed.
+Lemma r_islearner_upd_lead : forall r v, r_islearner (upd_lead r v) = r_islearner r. Proof. reflexivity. Qed.
+Lemma r_state_upd_lead : forall r v, r_state (upd_lead r v) = r_state r. Proof. reflexivity. Qed.
+Lemma r_log_upd_lead : forall r v, r_log (upd_lead r v) = r_log r. Proof. reflexivity. Qed.
+Lemma r_id_upd_transferee : forall r v, r_id (upd_transferee r v) = r_id r. Proof. reflexivity. Qed.
+Lemma r_term_upd_transferee : forall r v, r_term (upd_transferee r v) = r_term r. Proof. reflexivity. Qed.
+Lemma r_vote_upd_transferee : forall r v, r_vote (upd_transferee r v) = r_vote r. Proof. reflexivity. Qed.
+Lemma r_lead_upd_transferee : forall r v, r_lead (upd_transferee r v) = r_lead r. Proof. reflexivity. Qed.
+Lemma r_msgs_upd_transferee : forall r v, r_msgs (upd_transferee r v) = r_msgs r. Proof. reflexivity. Qed.
+Lemma r_islearner_upd_transferee : forall r v, r_islearner (upd_transferee r v) = r_islearner r. Proof. reflexivity. Qed.
+Lemma r_state_upd_transferee : forall r v, r_state (upd_transferee r v) = r_state r. Proof. reflexivity. Qed.
+Lemma r_log_upd_transferee : forall r v, r_log (upd_transferee r v) = r_log r. Proof. reflexivity. Qed.
+Lemma r_id_upd_pendingconf : forall r v, r_id (upd_pendingconf r v) = r_id r. Proof. reflexivity. Qed.
+Lemma r_term_upd_pendingconf : forall r v, r_term (upd_pendingconf r v) = r_term r. Proof. reflexivity. Qed.
+Lemma r_vote_upd_pendingconf : forall r v, r_vote (upd_pendingconf r v) = r_vote r. Proof. reflexivity. Qed.
+Lemma r_lead_upd_pendingconf : forall r v, r_lead (upd_pendingconf r v) = r_lead r. Proof. reflexivity. Qed.
+Lemma r_msgs_upd_pendingconf : forall r v, r_msgs (upd_pendingconf r v) = r_msgs r. Proof. reflexivity. Qed.
+Lemma r_islearner_upd_pendingconf : forall r v, r_islearner (upd_pendingconf r v) = r_islearner r. Proof. reflexivity. Qed.
+Lemma r_state_upd_pendingconf : forall r v, r_state (upd_pendingconf r v) = r_state r. Proof. reflexivity. Qed.
+Lemma r_log_upd_pendingconf : forall r v, r_log (upd_pendingconf r v) = r_log r. Proof. reflexivity. Qed.
+Lemma r_id_upd_elapsed : forall r v w, r_id (upd_elapsed r v w) = r_id r. Proof. reflexivity. Qed.
+Lemma r_term_upd_elapsed : forall r v w, r_term (upd_elapsed r v w) = r_term r. Proof. reflexivity. Qed.
+Lemma r_vote_upd_elapsed : forall r v w, r_vote (upd_elapsed r v w) = r_vote r. Proof. reflexivity. Qed.
+Lemma r_lead_upd_elapsed : forall r v w, r_lead (upd_elapsed r v w) = r_lead r. Proof. reflexivity. Qed.
+Lemma r_msgs_upd_elapsed : forall r v w, r_msgs (upd_elapsed r v w) = r_msgs r. Proof. reflexivity. Qed.
+Lemma r_islearner_upd_elapsed : forall r v w, r_islearner (upd_elapsed r v w) = r_islearner r. Proof. reflexivity. Qed.
+Lemma r_state_upd_elapsed : forall r v w, r_state (upd_elapsed r v w) = r_state r. Proof. reflexivity. Qed.
+Lemma r_log_upd_elapsed : forall r v w, r_log (upd_elapsed r v w) = r_log r. Proof. reflexivity. Qed.
+Lemma r_id_upd_randtimeout : forall r v, r_id (upd_randtimeout r v) = r_id r. Proof. reflexivity. Qed.
+Lemma r_term_upd_randtimeout : forall r v, r_term (upd_randtimeout r v) = r_term r. Proof. reflexivity. Qed.
+Lemma r_vote_upd_randtimeout : forall r v, r_vote (upd_randtimeout r v) = r_vote r. Proof. reflexivity. Qed.
+Lemma r_lead_upd_randtimeout : forall r v, r_lead (upd_randtimeout r v) = r_lead r. Proof. reflexivity. Qed.
+Lemma r_msgs_upd_randtimeout : forall r v, r_msgs (upd_randtimeout r v) = r_msgs r. Proof. reflexivity. Qed.
+Lemma r_islearner_upd_randtimeout : forall r v, r_islearner (upd_randtimeout r v) = r_islearner r. Proof. reflexivity. Qed.
+Lemma r_state_upd_randtimeout : forall r v, r_state (upd_randtimeout r v) = r_state r. Proof. reflexivity. Qed.
+Lemma r_log_upd_randtimeout : forall r v, r_log (upd_randtimeout r v) = r_log r. Proof. reflexivity. Qed.
+Lemma r_id_upd_usconf : forall r v, r_id (upd_usconf r v) = r_id r. Proof. reflexivity. Qed.
+Lemma r_term_upd_usconf : forall r v, r_term (upd_usconf r v) = r_term r. Proof. reflexivity. Qed.
+Lemma r_vote_upd_usconf : forall r v, r_vote (upd_usconf r v) = r_vote r. Proof. reflexivity. Qed.
+Lemma r_lead_upd_usconf : forall r v, r_lead (upd_usconf r v) = r_lead r. Proof. reflexivity. Qed.
+Lemma r_msgs_upd_usconf : forall r v, r_msgs (upd_usconf r v) = r_msgs r. Proof. reflexivity. Qed.
+Lemma r_islearner_upd_usconf : forall r v, r_islearner (upd_usconf r v) = r_islearner r. Proof. reflexivity. Qed.
+Lemma r_state_upd_usconf : forall r v, r_state (upd_usconf r v) = r_state r. Proof. reflexivity. Qed.
+Lemma r_log_upd_usconf : forall r v, r_log (upd_usconf r v) = r_log r. Proof. reflexivity. Qed.
+#[global] Hint Rewrite r_id_upd_log r_term_upd_log r_vote_upd_log r_lead_upd_log r_msgs_upd_log r_islearner_upd_log r_state_upd_log r_log_upd_log r_id_upd_prs r_term_upd_prs r_vote_upd_prs r_lead_upd_prs r_msgs_upd_prs r_islearner_upd_prs r_state_upd_prs r_log_upd_prs r_id_upd_lprs r_term_upd_lprs r_vote_upd_lprs r_lead_upd_lprs r_msgs_upd_lprs r_islearner_upd_lprs r_state_upd_lprs r_log_upd_lprs r_id_upd_msgs r_term_upd_msgs r_vote_upd_msgs r_lead_upd_msgs r_msgs_upd_msgs r_islearner_upd_msgs r_state_upd_msgs r_log_upd_msgs r_id_upd_tv r_term_upd_tv r_vote_upd_tv r_lead_upd_tv r_msgs_upd_tv r_islearner_upd_tv r_state_upd_tv r_log_upd_tv r_id_upd_state r_term_upd_state r_vote_upd_state r_lead_upd_state r_msgs_upd_state r_islearner_upd_state r_state_upd_state r_log_upd_state r_id_upd_islearner r_term_upd_islearner r_vote_upd_islearner r_lead_upd_islearner r_msgs_upd_islearner r_islearner_upd_islearner r_state_upd_islearner r_log_upd_islearner r_id_upd_votes r_term_upd_votes r_vote_upd_votes r_lead_upd_votes r_msgs_upd_votes r_islearner_upd_votes r_state_upd_votes r_log_upd_votes r_id_upd_lead r_term_upd_lead r_vote_upd_lead r_lead_upd_lead r_msgs_upd_lead r_islearner_upd_lead r_state_upd_lead r_log_upd_lead r_id_upd_transferee r_term_upd_transferee r_vote_upd_transferee r_lead_upd_transferee r_msgs_upd_transferee r_islearner_upd_transferee r_state_upd_transferee r_log_upd_transferee r_id_upd_pendingconf r_term_upd_pendingconf r_vote_upd_pendingconf r_lead_upd_pendingconf r_msgs_upd_pendingconf r_islearner_upd_pendingconf r_state_upd_pendingconf r_log_upd_pendingconf r_id_upd_elapsed r_term_upd_elapsed r_vote_upd_elapsed r_lead_upd_elapsed r_msgs_upd_elapsed r_islearner_upd_elapsed r_state_upd_elapsed r_log_upd_elapsed r_id_upd_randtimeout r_term_upd_randtimeout r_vote_upd_randtimeout r_lead_upd_randtimeout r_msgs_upd_randtimeout r_islearner_upd_randtimeout r_state_upd_randtimeout r_log_upd_randtimeout r_id_upd_usconf r_term_upd_usconf r_vote_upd_usconf r_lead_upd_usconf r_msgs_upd_usconf r_islearner_upd_usconf r_state_upd_usconf r_log_upd_usconf : upd.
 
 (* ---------- frames ---------- *)
 Lemma with_log_frame : forall A (r : raftst) (x : res (A * rlog)) a r',
@@ -143,9 +261,9 @@ Proof.
   intros r t r' H. unfold reset in H.
   match type of H with context [last_index ?R] => set (r0 := R) in * end.
   destruct (last_index r0) as [[li r1]| |] eqn:EL; cbn [bind] in H; try discriminate.
-  apply last_index_frame in EL. destruct EL as (l & ->). inversion H; subst r'; clear H.
-  subst r0. cbn.
-  destruct (r_term r =? t) eqn:E; cbn [negb]; cbn.
+  apply last_index_frame in EL. destruct EL as (l & ->). injection H as <-.
+  autorewrite with upd. subst r0. autorewrite with upd.
+  destruct (r_term r =? t) eqn:E; cbn [negb]; autorewrite with upd.
   - apply N.eqb_eq in E. repeat split; try reflexivity. exact E.
   - repeat split; reflexivity.
 Qed.
@@ -163,7 +281,7 @@ Proof.
   intros r t lead r' H. unfold become_follower in H.
   destruct (reset r t) as [r1| |] eqn:ER; cbn [bind] in H; try discriminate.
   inversion H; subst r'; clear H. apply reset_vote in ER. destruct ER as (A & B & _ & D & E & _).
-  cbn. tauto.
+  autorewrite with upd. tauto.
 Qed.
 
 (* ---------- heartbeat ---------- *)
@@ -302,6 +420,33 @@ Proof.
   rewrite Ha, Hc. unfold committed in Hlt. apply N.ltb_lt in Hlt. rewrite Hlt. reflexivity.
 Qed.
 
+
+(* Over a well-formed MemoryStorage-backed log the unlimited slice is the whole range (applied, committed]: whenever the
+   log holds a configuration change at ANY index in that range, hup refuses — no page size hides it. (The size
+   hypothesis says the entries' total encoded size fits 64 bits, where Go's noLimit comparison is exact.) *)
+Theorem hup_refuses_unapplied_conf_change : forall r t m off i e,
+  wf_mlog (r_log r) m off ->
+  mfirst (r_log r) off <= l_applied (r_log r) + 1 -> committed r <= mlast (r_log r) m off ->
+  (forall X, good (l_u (r_log r)) m off (l_applied (r_log r) + 1) X -> fold_right (fun e a => esz e + a) 0 X <= no_limit) ->
+  l_applied (r_log r) < i -> i <= committed r ->
+  log_entry (l_u (r_log r)) m off i = Some e -> is_conf e = true ->
+  hup r t = Ok r.
+Proof.
+  intros r t m off i e Hwf Hf Hl Hsz Hai Hic Hle Hconf.
+  destruct (l_slice_nolimit (r_log r) m off (l_applied (r_log r) + 1) (committed r + 1) Hwf Hf ltac:(lia) ltac:(lia) Hsz)
+    as (es & HS & Hgood & Hlen).
+  assert (Hfull : exists e', In e' es /\ is_conf e' = true).
+  { destruct Hgood as (_ & _ & Hnth).
+    set (k := N.to_nat (i - (l_applied (r_log r) + 1))).
+    destruct (nth_error es k) as [e'|] eqn:Ek.
+    - exists e'. split; [eapply nth_error_In; exact Ek|].
+      specialize (Hnth _ _ Ek). replace (l_applied (r_log r) + 1 + N.of_nat k) with i in Hnth by (subst k; lia).
+      rewrite Hle in Hnth. inversion Hnth; subst. exact Hconf.
+    - apply nth_error_None in Ek. unfold nlen in Hlen. subst k. lia. }
+  destruct Hfull as (e' & Hin & Hc').
+  destruct (hup_refuses_pending_conf r t es (r_log r) e' HS eq_refl eq_refl Hin Hc' ltac:(unfold committed in *; lia)) as [H|H]; [exact H|].
+  rewrite H. f_equal. destruct r; reflexivity.
+Qed.
 
 (* ---------- concrete states for the non-vacuity examples of Properties/C01.v, C02.v ---------- *)
 (* node 2 of voters {1,2,3} (or learner 2 of voters {1,3}), term 1, no vote, no leader; log: entry 1 (payload),
